@@ -22,27 +22,33 @@ CLASSES = {
   ('R02-unsigned-vs-0', r'^rw/(ifneg|negop|mirror|mirrorset)/(va|wa|X|Y)~(0|65535|255)/', "comparison of an unsigned value against 0 / the type maximum: one of the two equivalent forms is folded with the sign flag (see C01 K09)"),
   ('R03-cmp16', r'^rw/(ifneg|negop|mirror|mirrorset)/(wa|wX|va)~(wb|wa|va)/', "16-bit unsigned <= / > / >= : the two equivalent forms take different branches (see C01 K10)"),
   ('R04-signed-compare', r'^rw/(ifneg|negop|mirror|mirrorset)/(sa|ha)~', "signed comparison: a < b and b > a are lowered differently, both overflow-unsafe (see C01 K08)"),
+  ('R06-saved-Y-lost-update', r'^rw/ctx/regidx-and/pp/Y=\d/inc/', "ptr[k] with a constant k saves Y, loads k and restores Y afterwards around the whole condition: an update of Y made inside the condition (`ptr[2] && (++Y, ptr[Y])`) is undone by the restore"),
   ('R05-inc16-array', r'^rw/inc/.*w[2X]', "++/-- on a 16-bit array element updates the low byte only while x += 1 carries (see C01 K06)"),
  ],
  'C01': [
   ('K01-deref-clobbers-Y', r'^expr/.*dp', "'*ptr' is compiled as LDY #0 + (ptr),Y while another operand or the destination of the same expression still needs the previous Y (Y, arr[Y], ptr[Y]): wrong operand"),
   ('K02-reg-in-16bit', r'^expr/(bin|cass|un)/' + W16 + r'[-+&|^]?=.*\b[XY]\b', "16-bit destination with an X/Y register operand: evaluated in 8 bits, carry/borrow into the high byte lost"),
-  ('K03-shift16', r'^expr/(sh|shass)/', "shift expression assigned to / applied on a 16-bit object: high byte computed from the low byte, or shift counts >= 8 mishandled"),
+  ('K03-shift16', r'^expr/(sh|shass)/|^deep/sh16/', "shift expression assigned to / applied on a 16-bit object: high byte computed from the low byte, or shift counts >= 8 mishandled"),
   ('K04-not16', r'^expr/un/' + W16 + r'=!', "'!e' assigned to a 16-bit destination: the 0/1 value is stored in both bytes (257 instead of 1)"),
   ('K05-truth16-array', r'^expr/un/.*=!w[X1]', "truth value of a 16-bit array element tests the low byte only"),
-  ('K06-inc16-array', r'^expr/inc(use)?/.*w2', "++/-- on an element of a 16-bit array updates the low byte only"),
+  ('K06-inc16-array', r'^expr/inc(use)?/.*w2|^deep/idx/(inc|cass)/warr', "++/-- on an element of a 16-bit array updates the low byte only"),
   ('K07-deferred-postinc-index', r'^expr/incuse/Y=.*aY', "post-inc/dec of arr[Y] deferred until after Y itself was assigned: applied to the wrong element"),
-  ('K08-signed-compare', r'^cond/(if|set|ifnoelse|tern|while)/(sa|ha)~|^expr/kcmp/(sa|ha)/', "signed comparison lowered to CMP/SBC + BMI/BPL: wrong when the subtraction overflows, and > / <= variants wrong at equality"),
-  ('K09-unsigned-vs-0', r'^cond/(if|set|ifnoelse|tern|while)/(va|wa|X|Y)~(0|65535|255)/', "unsigned comparison against 0 or the type maximum folded with the sign flag / miscompiled (e.g. 'vc = va > 0' is always 0)"),
+  ('K08-signed-compare', r'^cond/(if|set|ifnoelse|tern|while)/(sa|ha)~|^expr/kcmp/(sa|ha)/|^deep/cmp/s_sum|^deep/idx/cmp/sarr', "signed comparison lowered to CMP/SBC + BMI/BPL: wrong when the subtraction overflows, and > / <= variants wrong at equality"),
+  ('K09-unsigned-vs-0', r'^cond/(if|set|ifnoelse|tern|while)/(va|wa|X|Y)~(0|65535|255)/|^deep/cmp/[^/@]*(<|<=|>|>=)k(0|255)@', "unsigned comparison against 0 or the type maximum folded with the sign flag / miscompiled (e.g. 'vc = va > 0' is always 0)"),
   ('K10-cmp16', r'^cond/(if|set|ifnoelse|tern|while)/(wa|wX|va|ha)~(wb|wa|va|hb|\d+|-\d+)/', "16-bit comparison (<=, > and mixed 8/16-bit operands) takes the wrong branch for some operands"),
-  ('K11-postinc-in-shortcircuit', r'^cond/log[23]/.*i', "post-increment inside an operand of && / || is deferred past the short-circuit decision: executed when it must not be / missed when it must"),
+  ('K11-postinc-in-shortcircuit', r'^cond/log[23]/.*i|^deep/kcond/\w+/[^@]*va\+\+', "post-increment inside an operand of && / || is deferred past the short-circuit decision: executed when it must not be / missed when it must"),
   ('K12-prec-eq-rel', r'^expr/prec(init)?/.*(==|!=)(vc|vb|wc)(<|>|<=|>=)|^expr/prec(init)?/.*(<|>|<=|>=)(vc|vb|wc)(==|!=)', "== / != share one precedence level with < > <= >= (C: relational binds tighter)"),
   ('K13-logic16', r'^expr/prec/wa=.*(&&|\|\|)', "&& / || value assigned to a 16-bit destination: expression evaluated twice, 0/1 stored in both bytes, 16-bit operands tested on one byte"),
   ('K14-call16', r'^call/signed_ret', "8-bit function result assigned to a 16-bit destination: the call is emitted twice and the high byte is the result again"),
-  ('K15-dowhile-postdec', r'^ctl/continue_do', "do { } while (v--): the decrement is deferred until after the loop, the loop never terminates for v != 0"),
-  ('K16-noasm-chain16', r'^noasm:expr/chain16', "wa = (va = wb) emits 'STA #0' (does not assemble)"),
+  ('K15-dowhile-postdec', r'^ctl/continue_do|^deep/empty/do@', "do { } while (v--): the decrement is deferred until after the loop, the loop never terminates for v != 0"),
+  ('K16-noasm-chain16', r'^noasm:(expr/chain16|deep/asg/wa=\(va=vb\))', "wa = (va = wb) emits 'STA #0' (does not assemble)"),
   ('K17-prec-shift-arith16', r'^expr/prec/wa=wb(<<|>>)', "16-bit (x << k) combined with another operand: high byte computed from the low byte"),
   ('K19-bnot16', r'^expr/un/(ha|wa)=~', "'~e' assigned to a 16-bit destination: the high byte is computed from the low byte of the operand"),
+  ('K20-postinc-in-condition', r'^deep/cmp/postinc|^deep/empty/while_postdec', "post-increment/decrement of a value tested by an if / loop condition is emitted on the fall-through path only: when the branch is taken the side effect is lost (`if (v++ < w) A else B` does not increment on the else path; `while (v--) ;` leaves v at 0)"),
+  ('K21-postinc-in-ternary', r'^deep/tern/side', "post-inc/dec inside the alternatives of ?: are deferred past the selection: both side effects are executed"),
+  ('K22-signext-computed-index', r'^deep/idx/ld16/sarr\[', "16-bit destination = element of a signed char array indexed by a variable or expression: the high byte is 0 instead of the sign extension (indexing by X / Y / a constant is extended correctly)"),
+  ('K23-ternary16', r'^deep/tern/(w|wk|mixed|signed)@', "c ? a : b assigned to a 16-bit destination: evaluated per byte, the high byte is selected among the LOW bytes of the alternatives"),
+  ('K24-store16-computed-index', r'^deep/idx/st/warr\[', "store to an element of a 16-bit array whose index is a variable or expression: Y is restored before the high byte is stored, which lands in another element"),
   ('K18-composite16', r'^expr/prec/wa=', "16-bit destination = composite expression (comparison, shift or logical sub-expression combined with another operand): the sub-expression is re-evaluated per byte and its 8-bit value is used for the high byte as well"),
  ],
 }
